@@ -10,9 +10,10 @@ NOT decided: I/O faults of write() itself (disk full, permissions).
 import ast
 
 from ..astutil import calls_in, call_name, where, kw
-from ..dataflow import sources_of
-from ..cfg import build_cfg
+from ..dataflow import sources_of, private_closure
+from ..cfg import build_cfg, enclosing_handlers
 from ..dataflow import node_of_ast
+from ..model import canonical_name
 from ..model import AnalysisError, unparse, walk_no_nested
 from .rules_order import compute_before_open, open_sites, is_write_open
 
@@ -71,41 +72,27 @@ def run(prog, rep):
         elif len(call.args) > 1 or call.keywords:
             why = "Validation is constructed with extra arguments (%s): the default rules may not run" % unparse(call)
         else:
-            loops = [n for n in g.nodes if n.kind == "for" and unparse(n.ast.iter) == "%s.errors" % vvar]
-            if len(loops) != 1:
-                why = "no loop over %s.errors" % vvar
-            else:
-                lp = loops[0]
-                lv = lp.ast.target.id if isinstance(lp.ast.target, ast.Name) else None
-                acc = set()
-                for n in ast.walk(lp.ast):
-                    if isinstance(n, ast.If) and unparse(n.test) == "%s.is_error" % lv:
-                        for m in ast.walk(n):
-                            if isinstance(m, ast.AugAssign) and isinstance(m.target, ast.Name):
-                                acc.add(m.target.id)
-                            if isinstance(m, ast.Assign):
-                                acc |= set(t.id for t in m.targets if isinstance(t, ast.Name))
-                            if isinstance(m, ast.Raise):
-                                acc.add("<raise>")
-                if not acc:
-                    why = "the loop over %s.errors does not accumulate under `if %s.is_error`" % (vvar, lv)
-                else:
-                    for n in g.nodes:
-                        if n.kind != "branch" or n.info.get("loop"):
+            guard, why = _error_guard(wf, g, vvar)
+            if guard is None:
+                # the guard may live in a private helper that is handed the validation object
+                for n in g.nodes:
+                    if n.kind != "stmt" or not isinstance(n.ast, ast.Expr) or not isinstance(n.ast.value, ast.Call):
+                        continue
+                    c = n.ast.value
+                    for h in private_closure(wf, depth=1):
+                        if h is wf or not (isinstance(c.func, ast.Attribute) and c.func.attr == h.name or isinstance(c.func, ast.Name) and c.func.id == h.name):
                             continue
-                        names = set(x.id for x in ast.walk(n.ast.test) if isinstance(x, ast.Name))
-                        if not (names & acc):
+                        hp = h.params[1:] if h.has_self else h.params
+                        idx = [i for i, a0 in enumerate(c.args) if unparse(a0) == vvar]
+                        if not idx or idx[0] >= len(hp):
                             continue
-                        t_side = n.out("true")
-                        raises = [m for m in g.nodes if m.kind == "raise" and t_side and g.dominates(t_side[0], m)
-                                  and isinstance(m.ast.exc, ast.Call) and unparse(m.ast.exc.func) == "ParserException"]
-                        falls_through = t_side and g.reaches(t_side[0], g.exit, skip_kinds=("exc",))
-                        if raises and not falls_through and g.dominates(vn, lp) and g.dominates(lp, n):
-                            # the accumulator must start empty: its definition before the loop is a constant ""
-                            guard = n
-                    if guard is None:
-                        why = "no test of the accumulated errors with `raise ParserException` on its true side after the loop"
-    rep.check(guard is not None, "DOM-5", "ODMLWriter.write_file: validation guard present", "Validation -> is_error loop -> raise ParserException",
+                        hg = build_cfg(h)
+                        hguard, hwhy = _error_guard(h, hg, hp[idx[0]])
+                        if hguard is not None and not enclosing_handlers(g, n):
+                            guard, why = n, ""
+            if guard is not None and not (g.dominates(vn, guard)):
+                guard, why = None, "the guard does not follow the Validation(...) construction"
+    rep.check(guard is not None, "DOM-5", "ODMLWriter.write_file: validation guard present", "Validation -> is_error selection -> raise ParserException",
               why, wf.where, witness="save a document with a Section without type: it is written instead of refused")
     for n, c in writes:
         inst = "write_file: %s" % unparse(c.func)
@@ -113,13 +100,6 @@ def run(prog, rep):
         rep.check(good, "DOM-5", inst, "dominated by the validation guard",
                   "the file creating call %s is reachable without passing the validation guard" % unparse(c)[:70],
                   where(wf, c), witness="save an invalid document with this backend: a file is written")
-    if guard is not None:
-        # accumulator initialised empty and the guard compares against empty
-        t = guard.ast.test
-        ok = (isinstance(t, ast.Compare) and isinstance(t.ops[0], ast.NotEq) and isinstance(t.comparators[0], ast.Constant)
-              and t.comparators[0].value == "") or isinstance(t, ast.Name)
-        rep.check(ok, "DOM-5", "guard fires on any accumulated error", unparse(t), "the guard test `%s` does not fire on every "
-                  "non-empty accumulation" % unparse(t), where(wf, guard.ast))
 
     # ----------------------------------------------------------------- OWN-4
     rep.rule("OWN-4", "fileio.save performs no file creating effect except calling write_file on an ODMLWriter; "
@@ -134,7 +114,7 @@ def run(prog, rep):
     if good:
         recv = sw[0][1].func.value
         srcs = sources_of(prog, save, recv) if isinstance(recv, ast.Name) else [(save, recv)]
-        recv_ok = bool(srcs) and all(isinstance(v, ast.Call) and call_name(v) == "ODMLWriter" for _, v in srcs)
+        recv_ok = bool(srcs) and all(isinstance(v, ast.Call) and canonical_name(prog, fv, v.func) == "tools.odmlparser.ODMLWriter" for fv, v in srcs)
     rep.check(good and recv_ok, "OWN-4", "fileio.save -> ODMLWriter.write_file", "single file effect through ODMLWriter",
               "fileio.save creates files other than through ODMLWriter(...).write_file", save.where,
               witness="odml.save of an invalid document writes a file")
@@ -145,7 +125,7 @@ def run(prog, rep):
                 continue
             recv = c.func.value
             srcs = sources_of(prog, f, recv) if isinstance(recv, ast.Name) else [(f, recv)]
-            if any(isinstance(v, ast.Call) and call_name(v).split(".")[-1] in ("XMLWriter", "RDFWriter") for _, v in srcs):
+            if any(isinstance(v, ast.Call) and canonical_name(prog, fv, v.func) in ("tools.xmlparser.XMLWriter", "tools.rdf_converter.RDFWriter") for fv, v in srcs):
                 raw_callers.append((f, c))
     allowed = {"tools.odmlparser.ODMLWriter.write_file", "tools.converters.format_converter.FormatConverter._convert_file"}
     for f, c in raw_callers:
@@ -204,3 +184,62 @@ def run(prog, rep):
               "is_error is computed as %s" % [unparse(r) for r in rets], ie.where)
     rep.assume("warnings.warn does not raise under the default warning filters; it precedes every write anyway (ORDER-6)")
     rep.assume("file.write of an already rendered text only fails for I/O reasons")
+
+
+def _selects_errors(e, vtext):
+    """does expression e contain a comprehension / generator over <vtext>.errors filtered by `<item>.is_error`?"""
+    for n in ast.walk(e):
+        if isinstance(n, (ast.ListComp, ast.GeneratorExp, ast.SetComp)):
+            for gen in n.generators:
+                if unparse(gen.iter) == "%s.errors" % vtext and isinstance(gen.target, ast.Name) \
+                        and any(unparse(i) == "%s.is_error" % gen.target.id for i in gen.ifs):
+                    return True
+                if unparse(gen.iter) == "%s.errors" % vtext and isinstance(gen.target, ast.Name) and unparse(n.elt) == "%s.is_error" % gen.target.id:
+                    return True      # any(err.is_error for err in v.errors)
+    return False
+
+
+def _error_guard(f, g, vtext):
+    """(branch node, why): a branch whose test is true exactly when the errors of <vtext> (is_error) are not empty and whose
+    true side raises ParserException without falling through."""
+    acc = set()
+    loops = [n for n in g.nodes if n.kind == "for" and unparse(n.ast.iter) == "%s.errors" % vtext]
+    for lp in loops:
+        lv = lp.ast.target.id if isinstance(lp.ast.target, ast.Name) else None
+        for n in ast.walk(lp.ast):
+            if isinstance(n, ast.If) and unparse(n.test) == "%s.is_error" % lv:
+                for m in ast.walk(n):
+                    if isinstance(m, ast.AugAssign) and isinstance(m.target, ast.Name):
+                        acc.add(m.target.id)
+                    if isinstance(m, ast.Assign):
+                        acc |= set(t.id for t in m.targets if isinstance(t, ast.Name))
+                    if isinstance(m, ast.Expr) and isinstance(m.value, ast.Call) and isinstance(m.value.func, ast.Attribute) \
+                            and m.value.func.attr in ("append", "add") and isinstance(m.value.func.value, ast.Name):
+                        acc.add(m.value.func.value.id)
+    for n in g.nodes:
+        if n.kind == "stmt" and isinstance(n.ast, ast.Assign) and _selects_errors(n.ast.value, vtext):
+            acc |= set(t.id for t in n.ast.targets if isinstance(t, ast.Name))
+    last_why = "no selection of the is_error entries of %s.errors" % vtext if not acc else \
+        "no test of the selected errors with `raise ParserException` on its true side"
+    for n in g.nodes:
+        if n.kind != "branch" or n.info.get("loop"):
+            continue
+        t = n.ast.test
+        names = set(x.id for x in ast.walk(t) if isinstance(x, ast.Name))
+        direct = _selects_errors(t, vtext)
+        if not (names & acc) and not direct:
+            continue
+        fires = isinstance(t, ast.Name) or direct or \
+            (isinstance(t, ast.Compare) and isinstance(t.ops[0], ast.NotEq) and isinstance(t.comparators[0], ast.Constant) and t.comparators[0].value in ("", 0)) or \
+            (isinstance(t, ast.Compare) and isinstance(t.ops[0], ast.Gt) and isinstance(t.comparators[0], ast.Constant) and t.comparators[0].value == 0) or \
+            (isinstance(t, ast.Call) and unparse(t.func) in ("len", "bool", "any"))
+        if not fires:
+            last_why = "the guard test `%s` does not fire on every non-empty selection" % unparse(t)
+            continue
+        t_side = n.out("true")
+        raises = [m for m in g.nodes if m.kind == "raise" and t_side and g.dominates(t_side[0], m)
+                  and isinstance(m.ast.exc, ast.Call) and unparse(m.ast.exc.func).split(".")[-1] == "ParserException"]
+        falls_through = t_side and g.reaches(t_side[0], g.exit, skip_kinds=("exc",))
+        if raises and not falls_through and all(g.dominates(lp, n) for lp in loops):
+            return n, ""
+    return None, last_why
